@@ -178,6 +178,9 @@ def applicable(scn: Dict[str, Any], form: Dict[str, str]) -> bool:
     # these forward ONE element where take(n) forwards n: the same wiring only for n = 1 or at the root
     if form["take"] in ONE_ELEMENT and any(n["k"] == "take" and n["n"] != 1 and i != 0 for i, n in enumerate(nd)):
         return False
+    # ... and a user who disposes inside the k-th on_next must see the same elements as with take(n)
+    if scn.get("dsp") and form["take"] in ONE_ELEMENT and any(n["k"] == "take" and n["n"] != 1 for n in nd):
+        return False
     if cfg in ("src_cts", "src_imm") and "resched" in kinds and form["resched"] != "range":
         return False   # generate() takes no scheduler argument
     return True
